@@ -1440,8 +1440,12 @@ class H2Connection:
         """
         delta = new_value - old_value
 
+        frames = []
         for stream in self.streams.values():
-            stream._inbound_flow_control_change_from_settings(delta)
+            frames.extend(
+                stream._inbound_flow_control_change_from_settings(delta)
+            )
+        self._prepare_for_sending(frames)
 
     def receive_data(self, data):
         """
